@@ -186,18 +186,14 @@ func checkLeaseDeadlineRepresentable(c *Ctx, rule string) {
 			if all && why != "" {
 				bounded = why
 			}
-			// (a) TTL bounded above by a constant, in this function or its callers in the package
-			fns := []*ssa.Function{fn}
-			for _, cs := range p.CallSitesOf(fn) {
-				if cs.Parent().Package() == fn.Package() {
-					fns = append(fns, cs.Parent())
-				}
-			}
-			for _, f := range fns {
+			// (a) the TTL that is added is bounded above by a constant: the comparison is on a value the Add's duration
+			// argument is merged from (in this function), or on the value a caller passes for that parameter
+			back := backwardMerge(add.Call.Args[len(add.Call.Args)-1])
+			ttlCmp := func(f *ssa.Function, vals map[ssa.Value]bool) string {
 				for _, b := range f.Blocks {
 					for i2 := range b.Succs {
 						a, ok := edgeAtom(Edge{b, i2})
-						if !ok || namedName(a.X.Type()) != "Duration" {
+						if !ok || namedName(a.X.Type()) != "Duration" || !vals[a.X] {
 							continue
 						}
 						if _, isConst := a.Y.(*ssa.Const); !isConst {
@@ -205,10 +201,37 @@ func checkLeaseDeadlineRepresentable(c *Ctx, rule string) {
 						}
 						if a.Op == token.GTR || a.Op == token.GEQ {
 							if v, ok := intConst(a.Y); ok && v > 0 {
-								bounded = "TTL compared with an upper bound at " + p.Pos(b.Instrs[len(b.Instrs)-1].Pos())
+								return "TTL compared with an upper bound at " + p.Pos(b.Instrs[len(b.Instrs)-1].Pos())
 							}
 						}
 					}
+				}
+				return ""
+			}
+			if w := ttlCmp(fn, back); w != "" {
+				bounded = w
+			}
+			for pi, prm := range fn.Params {
+				if !back[prm] {
+					continue
+				}
+				callers := p.CallSitesOf(fn)
+				allBound := len(callers) > 0
+				w := ""
+				for _, cs := range callers {
+					args := cs.Common().Args
+					if cs.Parent().Package() != fn.Package() || pi >= len(args) {
+						allBound = false
+						continue
+					}
+					if x := ttlCmp(cs.Parent(), backwardMerge(args[pi])); x != "" {
+						w = x
+					} else {
+						allBound = false
+					}
+				}
+				if allBound && w != "" {
+					bounded = w + " (every caller)"
 				}
 			}
 			c.Check(bounded != "", rule, fmt.Sprintf("sqlite.%s:lease deadline is bounded before UnixNano", fn.Name()), p.InstrPos(add),
@@ -252,5 +275,24 @@ func forwardFlow(v ssa.Value) map[ssa.Value]bool {
 			}
 		}
 	}
+	return out
+}
+
+// backwardMerge: v and every value it is merged from (phi edges), within its function.
+func backwardMerge(v ssa.Value) map[ssa.Value]bool {
+	out := map[ssa.Value]bool{}
+	var walk func(x ssa.Value)
+	walk = func(x ssa.Value) {
+		if out[x] {
+			return
+		}
+		out[x] = true
+		if ph, ok := x.(*ssa.Phi); ok {
+			for _, e := range ph.Edges {
+				walk(e)
+			}
+		}
+	}
+	walk(v)
 	return out
 }
